@@ -281,12 +281,6 @@ theorem pubrel_encode_decode (a : Ack) (h : WFPubrel a) :
     simp only [List.append_nil] at this
     rw [this]
 
-theorem packProps_size_of_unpack {t : Option Nat} {w2 : Bytes} {ps : Props} {rest : Bytes} (hb : AllBytes w2)
-    (h : unpackProps t w2 = .ok (ps, rest)) : (packProps (some ps)).length ≤ w2.length + 1 := by
-  rcases unpackProps_size t w2 ps rest hb h with h1 | ⟨rfl, rfl, _⟩
-  · omega
-  · simp [packProps, packBody, encVbiOrNil, encVbi, vbiDigits]
-
 theorem ack_decode_wf (v t : Nat) (w : Bytes) (a : Ack) (hb : AllBytes w) (hl : w.length ≤ 268435455)
     (h : unpackAck t v w.length w = .ok a) : WFAck v t a := by
   simp only [unpackAck] at h
@@ -772,7 +766,7 @@ theorem disconnect_encode_decode (v : Nat) (hv3 : v = v31 ∨ v = v311 ∨ v = v
       · simp [h]
       · exact (h5 h).elim
     simp only [Bool.or_eq_true, decide_eq_true_eq] at h34
-    rcases h34 with h | h <;> subst h <;> simp [disconnectBody, unpackDisconnect, v5, v311, v31]
+    rcases h34 with h | h <;> subst h <;> simp [unpackDisconnect, v5, v311, v31]
 
 theorem disconnect_decode_wf (v : Nat) (w : Bytes) (d : Disconnect) (hb : AllBytes w)
     (hl : w.length ≤ 268435455) (h : unpackDisconnect v w.length w = .ok d) : WFDisconnect v d := by
@@ -1306,7 +1300,7 @@ theorem unsubscribe_decode_wf (v : Nat) (w : Bytes) (u : Unsubscribe) (hb : AllB
         subst hts
         refine ⟨rfl, hpid, hne, hwfn, ?_, ?_⟩
         · unfold WFOptProps; rw [if_neg h5]
-        · simp only [unsubscribeBody, h5, if_false, List.nil_append, List.length_append, writeU16, List.length_cons,
+        · simp only [unsubscribeBody, h5, if_false, List.length_append, writeU16, List.length_cons,
             List.length_nil, henc, List.append_nil]
           omega
 
@@ -1955,7 +1949,7 @@ theorem encode_decode_all (v : Nat) (hv : v = v31 ∨ v = v311 ∨ v = v5) (p : 
     have hq2 : ¬ pb.qos > 2 := by have := h.2.1; omega
     have hf4' : decide ((b2n pb.dup 8 + b2n pb.retain 1) % 2 = 1) = pb.retain := by
       cases pb.dup <;> cases pb.retain <;> simp [b2n]
-    simp only [planOf, tPUBLISH, tCONNECT, tCONNACK, publishFlags, hf2, hf3, hf4]
+    simp only [planOf, tPUBLISH, tCONNECT, tCONNACK, publishFlags, hf2, hf3]
     simp [hq0, hq2, runPlan, withWindow_append, hdec, hf4', Except.map]
   | puback a =>
     have hdec := ack_encode_decode v tPUBACK a h
